@@ -54,7 +54,9 @@ def yaml_node_configs() -> List[Tuple[str, dict]]:
                                                                                              "collection": "FloatDataCollection"}}, "parameters": {"factor": 2.0}}))
     # sweeps: kinds x variable kinds x with/without defaults x node-level parameters
     var_menu = {"seq": {"values": [1.0, 2.0]}, "range": {"lo": 1.0, "hi": 2.0, "steps": 2}, "log": {"lo": 1.0, "hi": 10.0, "steps": 2, "scale": "log"},
-                "ctx": {"from_context": "r"}, "list": [1.0, 2.0, 3.0]}
+                "ctx": {"from_context": "r"}, "list": [1.0, 2.0, 3.0],
+                # legal numbers all: non-finite floats, ints and bools next to floats, a single value
+                "nonfinite": {"values": [1.0, float("inf"), float("-inf")]}, "nan": [float("nan"), 2.0], "mixed": {"values": [1, 2.0, True]}, "single": [0.0]}
     for vk, spec in var_menu.items():
         for mode, bc in (("combinatorial", False), ("by_position", True)):
             base = {"variables": {"t": spec, "u": {"values": [1.0]}}, "mode": mode, "broadcast": bc}
